@@ -622,6 +622,17 @@ class Device(device.Device):
         return self.chipset.host_command_frame_max_size - 3
 
     def send_cmd_recv_rsp(self, target, data, timeout):
+        try:
+            return self._send_cmd_recv_rsp(target, data, timeout)
+        except Chipset.Error as error:
+            # A chip error for one of the preparatory register or
+            # configuration commands (errors of the data exchange
+            # command itself are translated below) means that the
+            # host-controller communication is broken.
+            self.log.error(error)
+            raise IOError(errno.EIO, os.strerror(errno.EIO))
+
+    def _send_cmd_recv_rsp(self, target, data, timeout):
         def bitrate(brty):
             return [106 << i for i in range(6)].index(int(brty[:-1]))
 
@@ -1012,8 +1023,11 @@ class Device(device.Device):
                 self.chipset.write_register("CIU_CommIRq", 0b00100000)
                 fifo_size = self.chipset.read_register("CIU_FIFOLevel")
                 fifo_read = fifo_size * ["CIU_FIFOData"]
-                fifo_data = bytearray(self.chipset.read_register(*fifo_read))
-                if fifo_data[0] != len(fifo_data):
+                fifo_data = self.chipset.read_register(*fifo_read) \
+                    if fifo_size > 0 else []
+                fifo_data = bytearray([fifo_data] if fifo_size == 1
+                                      else fifo_data)
+                if not fifo_data or fifo_data[0] != len(fifo_data):
                     raise nfc.clf.TransmissionError("frame length byte error")
                 return fifo_data
         if timeout > 0:
@@ -1023,9 +1037,9 @@ class Device(device.Device):
 
     def send_rsp_recv_cmd(self, target, data, timeout):
         # print("\n".join(self._print_ciu_register_page(0, 1)))
-        if target.tt3_cmd:
-            return self._tt3_send_rsp_recv_cmd(target, data, timeout)
         try:
+            if target.tt3_cmd:
+                return self._tt3_send_rsp_recv_cmd(target, data, timeout)
             if data:
                 self.chipset.tg_response_to_initiator(data)
             return self.chipset.tg_get_initiator_command(timeout)
